@@ -12,6 +12,7 @@ import RotoV.Lemmas.Layout
 import RotoV.Lemmas.LayoutPath
 import RotoV.Lemmas.LayoutClone
 import RotoV.Lemmas.LayoutEq
+import RotoV.Lemmas.LayoutTotal
 
 namespace RotoV.C02
 open RotoV RotoV.Layout RotoV.LayoutStd RotoV.Gen.LayoutGen
@@ -301,5 +302,17 @@ theorem eq_zero_sized_refuted_before_fix :
     (eqOps true (.enum (.cons (.cons .unit .nil) (.cons .nil .nil)))).isPanic = false ∧
     (eqOps true (.record (.cons .unit (.cons (.leaf .int 4 4) .nil)))).isPanic = false := by
   refine ⟨rfl, rfl, rfl, rfl⟩
+
+/-- **`generated_functions_total`** — for EVERY type tree (inhabited or not,
+    any mixture of zero-sized / uninhabited components) generating the clone,
+    the drop and the (repaired) equality function hits no `unwrap()` on `None`
+    and no `ice!()` of the lowerer; `lower_type`'s final
+    `ice!("could not lower")` is unreachable. With
+    `eq_zero_sized_refuted_before_fix` this is exactly the difference the
+    repair `f353f18` makes. -/
+theorem generated_functions_total (t : Ty) :
+    (cloneOps t).isPanic = false ∧ (dropOps t).isPanic = false ∧ (eqOps true t).isPanic = false ∧
+    lowerType t ≠ .panic :=
+  ⟨(generated_ops_total t).1, (generated_ops_total t).2.1, (generated_ops_total t).2.2, lowerType_total t⟩
 
 end RotoV.C02
